@@ -201,25 +201,27 @@ def showRaw (qs : List Term) (st : State) : String :=
   showTuple terms ++ " @ - @ " ++ " ".intercalate (terms.map fun _ => "-")
 
 def topFuel : Nat := 40
-def peekFuel : Nat := 200000
-def nextFuel : Nat := 20000
+def defaultFuel : Nat := 20000
 
-def topSolver : G → State → Strm State Call := solveAt (defs ord0) peekFuel topFuel
+/-- the solver used for paused goals; `fuel` also bounds the `peek`/`trunc` loops of `conda`/`condu` -/
+def topSolver (fuel : Nat) : G → State → Strm State Call := solveAt (defs ord0) fuel topFuel
 
-/-- collect up to `k` answers (`k = 0`: all) -/
-def collect (raw : Bool) (qs : List Term) : Nat → Nat → Strm State Call → List String → List String
-  | 0, _, _, acc => acc.reverse ++ ["MORE"]
-  | lim + 1, k, s, acc =>
-    match nextF topSolver nextFuel s with
-    | none => acc.reverse ++ ["FUEL"]
-    | some none => acc.reverse
-    | some (some (st, s')) =>
-      match st.panic with
-      | some site => if site == "FUEL" then acc.reverse ++ ["FUEL"] else [s!"PANIC {site}"]
-      | none =>
-        let ans := if raw then showRaw qs st else showAnswer (mkAnswer ord0 qs st)
-        let acc := ans :: acc
-        if acc.length == k then acc.reverse else collect raw qs lim k s' acc
+/-- Collect up to `k` answers (`k = 0`: all) within `fuel` units IN TOTAL: the loop of
+    `ResultIterator::next` over `Solver::next`; one unit per engine `step` and per delivered answer. -/
+def collect (raw : Bool) (qs : List Term) (pf : Nat) : Nat → Nat → Strm State Call → List String → List String
+  | _, _, .empty, acc => acc.reverse
+  | 0, _, _, acc => acc.reverse ++ ["FUEL"]
+  | fuel + 1, k, .lazy l, acc => collect raw qs pf fuel k (step (topSolver pf) l) acc
+  | fuel + 1, k, .unit st, acc => emit fuel k st .empty acc
+  | fuel + 1, k, .cons st l, acc => emit fuel k st (.lazy l) acc
+where
+  emit (fuel k : Nat) (st : State) (rest : Strm State Call) (acc : List String) : List String :=
+    match st.panic with
+    | some site => if site == "FUEL" then acc.reverse ++ ["FUEL"] else [s!"PANIC {site}"]
+    | none =>
+      let ans := if raw then showRaw qs st else showAnswer (mkAnswer ord0 qs st)
+      let acc := ans :: acc
+      if acc.length == k then acc.reverse else collect raw qs pf fuel k rest acc
 
 def runProg (ts : Toks) : String :=
   match nat ts with
@@ -240,10 +242,18 @@ def runProg (ts : Toks) : String :=
               let qs := (List.range nq).map Term.var
               let qv := Term.var nv
               let st0 := State.empty (nv + 1)
-              let raw := flags == "raw"
-              let s := if raw then topSolver (Goal.conjOfList body) st0
-                       else topSolver (queryG ord0 qv qs body) st0
-              let answers := collect raw qs 100000 take s []
+              let fl := flags.splitOn ":"
+              let raw := fl.head? == some "raw"
+              let fuel? : Option Nat := match fl with
+                | [_] => some defaultFuel
+                | [_, f] => f.toNat?
+                | _ => none
+              match fuel? with
+              | none => "bad-case"
+              | some fuel =>
+              let s := if raw then topSolver fuel (Goal.conjOfList body) st0
+                       else topSolver fuel (queryG ord0 qv qs body) st0
+              let answers := collect raw qs fuel fuel take s []
               if answers.isEmpty then "none" else " || ".intercalate answers
         | [] => "bad-case"
       | none => "bad-case"
